@@ -161,12 +161,12 @@ func (c *childExec) exec(line string) string {
 	}
 }
 
-// caseTimeout is the time one case of an isolated suite may take (VERIF_CASE_TIMEOUT seconds, default 90).
+// caseTimeout is the time one case of an isolated suite may take (VERIF_CASE_TIMEOUT seconds, default 45).
 func caseTimeout() time.Duration {
 	if v, err := strconv.Atoi(os.Getenv("VERIF_CASE_TIMEOUT")); err == nil && v > 0 {
 		return time.Duration(v) * time.Second
 	}
-	return 90 * time.Second
+	return 45 * time.Second
 }
 
 func main() {
@@ -235,9 +235,14 @@ func main() {
 			child = &childExec{}
 			defer child.stop()
 		}
+		hung := 0
 		g.emit = func(line string) {
 			if *filter != "" && !strings.HasPrefix(line, *filter) {
 				return
+			}
+			if hung >= 3 {
+				g.Count("skipped-after-3-hangs")
+				return // three cases already hung: the remaining ones are not run (each would cost a full time-out)
 			}
 			var out string
 			if child != nil {
@@ -255,6 +260,13 @@ func main() {
 			iw.WriteString(out)
 			iw.WriteByte('\n')
 			n++
+			if strings.HasPrefix(out, "HARNESS-") {
+				if strings.HasPrefix(out, "HARNESS-TIMEOUT") {
+					hung++
+				}
+				_ = cw.Flush()
+				_ = iw.Flush()
+			}
 		}
 		if *corpus != "" {
 			if data, err := os.ReadFile(*corpus); err == nil {
